@@ -397,13 +397,13 @@ func (fr *Frame) binop(in *ssa.BinOp) *GVal {
 		case token.QUO:
 			return res(App("fp.div", SF64, mk("RNE", mkSort("RoundingMode")), x, y))
 		case token.LSS:
-			return res(App("fp.lt", SBool, x, y))
+			return res(App("f64.lt", SBool, x, y))
 		case token.LEQ:
-			return res(App("fp.leq", SBool, x, y))
+			return res(App("f64.leq", SBool, x, y))
 		case token.GTR:
-			return res(App("fp.gt", SBool, x, y))
+			return res(App("f64.gt", SBool, x, y))
 		case token.GEQ:
-			return res(App("fp.geq", SBool, x, y))
+			return res(App("f64.geq", SBool, x, y))
 		case token.EQL:
 			return res(App("fp.eq", SBool, x, y))
 		case token.NEQ:
